@@ -436,3 +436,41 @@ func TestC08Rapid(t *testing.T) {
 func outRoot(o *mOutput) [32]byte {
 	return ref.OutputRoot(o.Version, o.Storage[:], o.BlockHash)
 }
+
+// TestC08AccumulatedBalance (bounded): single deposits are bounded by L1, balances add up. A holder of more than
+// 2^64-1 units of a bridged token asks for all of it at once: L2 refuses (the holder can withdraw in parts), or the
+// recorded withdrawal would name an amount no L1 claim can carry while the coins are burnt.
+func TestC08AccumulatedBalance(t *testing.T) {
+	if cfgShard != 0 {
+		return
+	}
+	rec := evid.For("C08")
+	for _, n := range []int{2, 3} {
+		tc := newTwoChain(tcOpts{nExecutors: 1})
+		u := tc.users[1]
+		each := math.NewIntFromUint64(1<<63 + 7)
+		for k := 0; k < n; k++ {
+			tc.l1.Fund(tc.users[0].Addr, sdk.NewCoin("uinit", each))
+			r, p := tc.l1Deposit(tc.users[0], u.Str, sdk.NewCoin("uinit", each), nil)
+			if p == nil {
+				t.Fatalf("L1 refused a deposit of 2^63+7: %v", r.Err)
+			}
+			if rr := tc.l2.Deliver(relayMsg(tc.executors[0].Str, p)); !rr.OK() {
+				caseFail(t, fmt.Sprintf("accumulated/%d", n), "C08 violated: faithful relay of a deposit of %s failed: %v", each, rr.Err)
+			}
+		}
+		l2d := tcL2Denom(tc, "uinit")
+		bal := tc.l2.Balance(u.Addr, l2d)
+		r := tc.l2.Deliver(opchildtypes.NewMsgInitiateTokenWithdrawal(u.Str, u.Str, sdk.NewCoin(l2d, bal)))
+		if r.OK() {
+			for _, x := range parseWithdrawalEvents(r.Events) {
+				if _, ok := tc.leafOf(x); !ok {
+					caseFail(t, fmt.Sprintf("accumulated/%d", n), "C08 violated: L2 burnt %s%s and recorded withdrawal #%d of that amount: it does not fit the 64-bit commitment format, no L1 claim can pay it and the escrow keeps the coins", x.Amount, x.Denom, x.Seq)
+				}
+			}
+		}
+		c := rec.Begin()
+		c.Class("whole-balance-above-2^64-asked-for-at-once")
+		c.Done()
+	}
+}
